@@ -13,13 +13,15 @@
   `_partial`.
 -/
 import StVerif.Lemmas.Sinks
+import StVerif.Lemmas.SinksChunk
 import StVerif.Props.C01
 import StVerif.Props.C02
+import StVerif.Props.C11
 
 namespace StVerif.Props.C17
 open StVerif StVerif.Fmt StVerif.Utf StVerif.Sinks StVerif.Generated
 open StVerif.Spec.Unicode
-open StVerif.Lemmas.Sinks StVerif.Lemmas.Utf StVerif.Lemmas.Utf8Split
+open StVerif.Lemmas.Sinks StVerif.Lemmas.Utf StVerif.Lemmas.Utf8Split StVerif.Lemmas.Fmt
 
 /-! ### narrow sinks -/
 
@@ -169,6 +171,60 @@ theorem writef_wide_eq_partial (T : Enc) (hT : T = .utf16 ∨ T = .utf32) (fmt :
   simp only [Outcome.bind]
   exact wide_sink_eq_partial T hT _ ev hb hs hl
 
+/-! ### when the hypothesis holds -/
+
+/-- **the hypothesis of the wide-sink theorem is met whenever literal text and string arguments
+    are valid UTF-8, no precision cuts inside a character, and pad characters are ASCII**, stated
+    over the model of the whole call (`Fmt.run`: scanner, field parser, `format_type` overloads):
+
+    * the format string is well-formed UTF-8 (`validate_utf8` accepts it);
+    * for every field the parser produces from it, the pad character is ASCII and every argument
+      is `ArgSafe` under that field: a string cut to the field's precision ends at a character
+      boundary, a `char8_t` printed with class `c` is ASCII, libc's floating-point text is ASCII
+      (integers, the other character types, booleans and null strings always qualify).
+
+    Proof: the literal scanner cuts the format string only at braces and at its end, a field ends
+    behind its closing brace, and well-formed text can be cut at any ASCII byte. -/
+theorem chunkSafe_of_ascii_pad_and_valid_args (fmt : List Nat) (args : List Arg) (ev : List Event)
+    (hrun : run (some fmt) args = .ok ev) (hlit : validateUtf8 fmt = 0)
+    (hfields : ∀ p spec p', parseFormat fmt p = .ok (spec, p') → padOf spec < 0x80 ∧ ∀ a ∈ args, ArgSafe spec a) :
+    chunkSafe ev = true := by
+  unfold run runEvents at hrun
+  refine applyFormat_safe fmt args.length (formattersOf args) ?_ (valid_of_validate fmt hlit) ev hrun
+  intro p spec p' hpf id hid ev' hev
+  obtain ⟨hpad, hargs⟩ := hfields p spec p' hpf
+  have hget : args[id]? = some args[id] := List.getElem?_eq_getElem hid
+  rw [formattersOf_some hget] at hev
+  exact formatType_safe _ spec hpad (hargs _ (List.getElem_mem hid)) ev' hev
+
+/-- "no precision cuts inside a character" in the vocabulary of C11's Spec: the text `format_string`
+    appends is the natural rendering `naturalText` (the argument cut to the precision) -/
+theorem argSafe_str_iff_natural (f : FormatSpec) (hf : f.precision < 2 ^ 64) (bs : List Nat) :
+    ArgSafe f (.str bs) ↔ validateUtf8 (C11.naturalText f bs) = 0 := by
+  have : bs.take (cutSize f bs.length) = C11.naturalText f bs := by
+    unfold cutSize C11.naturalText
+    by_cases hp : f.precision ≥ 0
+    · rw [wrap64_of_nonneg hp hf]
+      simp only [hp, true_and, if_true]
+      split
+      · rfl
+      · rw [List.take_of_length_le (Nat.le_refl _), List.take_of_length_le (by omega)]
+    · simp [hp]
+  simp only [ArgSafe, this]
+  exact valid_iff _
+
+/-- the two theorems together: for such a call every wide stream receives the UTF-16/32
+    transcoding of the bytes of the call -/
+theorem writef_wide_eq_of_valid_inputs (T : Enc) (hT : T = .utf16 ∨ T = .utf32) (m : Mode) (fmt : List Nat) (args : List Arg)
+    (ev : List Event) (hrun : run (some fmt) args = .ok ev) (hb : EventsBytes ev) (hl : (flatten ev).length < hugeBufferSize)
+    (hlit : validateUtf8 fmt = 0)
+    (hfields : ∀ p spec p', parseFormat fmt p = .ok (spec, p') → padOf spec < 0x80 ∧ ∀ a ∈ args, ArgSafe spec a) :
+    runWritefWide T m (some fmt) args = reference .utf8 T m true (flatten ev) := by
+  unfold runWritefWide
+  rw [hrun]
+  simp only [Outcome.bind]
+  exact wide_sink_eq_partial T hT m ev hb (chunkSafe_of_ascii_pad_and_valid_args fmt args ev hrun hlit hfields) hl
+
 /-! ### the hypothesis is forced: the two recorded findings -/
 
 /-- `"{_\xC3>1}{_\xA9>1}"` -/
@@ -273,6 +329,8 @@ example : EventsBytes [.appendChar 42 3, .append [0xC3, 0xA9], .append [104, 105
   intro e he; simp at he; rcases he with rfl | rfl | rfl <;> decide
 example : chunkSafe [.appendChar 42 3, .append [0xC3, 0xA9], .append [104, 105], .appendChar 0xC3 0] = true := by decide
 example : wideSink .utf16 .checkValidity [.appendChar 42 3, .append [0xF0, 0x9F, 0x98, 0x80]] = .ok [42, 42, 42, 0xD83D, 0xDE00] := by decide
+example : ArgSafe { precision := 3 } (.str [0x68, 0xC3, 0xA9, 0x6C]) := valid_of_validate _ (by decide)
+example : ¬ ArgSafe { precision := 2 } (.str [0x68, 0xC3, 0xA9, 0x6C]) := fun h => absurd (validate_of_valid _ h) (by decide)
 example : stdExtract [32, 9, 104, 105, 32, 120] = ([104, 105], [32, 120]) := by decide
 example : Sinks.insert .utf32 { width := 4, fill := 42, left := true } [0xC3, 0xA9, 0x61] = .ok [0xE9, 0x61, 42, 42] := by decide
 
